@@ -27,6 +27,10 @@ CFG = {
     "also_findings_of": ["C02", "C06", "C07", "C12", "C13", "C14", "C15", "C16", "C18"],
     "timeout": {"quick": 900, "thorough": 14400},
     "no_search": True,
+    # debug assertions and overflow checks only exist in a debug build: the API families and the SMALL stream are run
+    # once more with one (extra build 'debug'), keeping only panic rules
+    "extra_builds": {"debug": ["@debug"]},
+    "debug_gens": ["C03API", "SM"],
 }
 
 MANIFEST = {
